@@ -195,7 +195,8 @@ fn content_event(r: &mut StdRng, big: bool) -> (Option<String>, String) {
     let mut data: String = (0..r.gen_range(0..6)).map(|_| *pieces.choose(r).unwrap()).collect();
     if big {
         // near the 65 528-byte read of the chunk writer: the encoding is "data: " + line + "\n" per line
-        let target = r.gen_range(65_380..65_522usize);
+        // (both sides of the limit: an event whose encoding exceeds the buffer has to be REFUSED, never cut)
+        let target = if r.gen_bool(0.5) { r.gen_range(65_380..65_522usize) } else { *[65_522usize, 65_523, 65_530, 65_600, 70_000, 131_072].choose(r).unwrap() };
         data = "z".repeat(target);
         if r.gen_bool(0.5) {
             data.insert(target / 2, '\n');
@@ -213,7 +214,7 @@ fn content_event(r: &mut StdRng, big: bool) -> (Option<String>, String) {
 
 pub fn run_content(args: &Args, mut out: Out) {
     let n = args.u64("n", 3000);
-    let nbig = args.u64("big", 6);
+    let nbig = args.u64("big", 16);
     let mut r = args.rng();
     for sid in 1..=(n + nbig) {
         let (ty, data) = content_event(&mut r, sid > n);
@@ -237,7 +238,13 @@ pub fn run_content(args: &Args, mut out: Out) {
         out.ev(sid, "Reset", json!({}));
         if !fits {
             // documented limit: an event whose encoding exceeds the 65 528-byte read ends the stream without a terminator
-            out.ev(sid, "TooBig", json!({"len": data.len()}));
+            let enc_len = catch(|| {
+                let mut v = vec![];
+                ev.push_to(&mut v);
+                v.len()
+            })
+            .unwrap_or(0);
+            out.ev(sid, "TooBig", json!({"len": data.len(), "encLen": enc_len}));
             continue;
         }
         // the same event through push_to must give the same bytes
